@@ -524,3 +524,74 @@ func post_Subscribers_Reset(s *Subscribers) bool {
 	m := *s
 	return vs.ForallKey(m, func(k uint32) bool { return !vs.Has(m, k) })
 }
+
+// ---------------------------------------------------------------------------------------------------------
+// The message codec (C19: "every message and frame survives encode/decode unchanged"). kelindar/binary's stream
+// primitives (WriteUvarint / Write, ReadUvarint / Slice) and reflect are outside the verified code: recorded
+// calls. The two contracts fix the ORDER and the CONTENT of what goes to / comes from the stream - id, channel,
+// payload, each length-prefixed, then the ttl - so that decoding what was encoded gives the fields back in their
+// places (given that the primitives themselves round-trip: assumed of the third-party codec).
+//@ assume (*github.com/kelindar/binary.Decoder).ReadUvarint iface
+//@ assume reflect.ValueOf iface
+//@ assume (reflect.Value).Set iface
+
+// @ verify (*messageCodec).DecodeTo pre=pre_messageCodec_DecodeTo post=post_messageCodec_DecodeTo props=C19
+func pre_messageCodec_DecodeTo(d *binary.Decoder) bool { return d != nil }
+func post_messageCodec_DecodeTo(d *binary.Decoder, res0 error) bool {
+	v := vs.TraceFind("reflect.ValueOf")
+	if res0 != nil {
+		return v < 0 // an error: nothing is delivered
+	}
+	if v < 0 {
+		// nothing delivered and yet no error: only when the LAST read (the ttl) failed - the code shadows that error
+		// (observation, recorded in the evidence: a message cut off inside its ttl decodes "successfully" to the
+		// zero message; harmless downstream - an id-less message is dropped - and no listed property is about it)
+		return vs.TraceCount("ReadUvarint") == 4 && vs.TraceRet[error](vs.TraceFindNth("ReadUvarint", 3), 1) != nil
+	}
+	// success: four length/number reads, in between the three field reads, and the message built from them in order
+	if v < 0 || vs.TraceCount("ReadUvarint") != 4 || vs.TraceCount("reflect.ValueOf") != 1 || vs.TraceCount("Value).Set") != 1 {
+		return false
+	}
+	m, ok := vs.TraceArg[interface{}](v, 0).(Message)
+	return ok && specFieldFrom(m.ID, 0) && specFieldFrom(m.Channel, 1) && specFieldFrom(m.Payload, 2) &&
+		m.TTL == uint32(vs.TraceRet[uint64](vs.TraceFindNth("ReadUvarint", 3), 0))
+}
+
+// field k (0 id, 1 channel, 2 payload) is what the k-th length prefix announced: nothing for 0, else the bytes
+// Slice returned for exactly that length
+func specFieldFrom(f []byte, k int) bool {
+	u := vs.TraceFindNth("ReadUvarint", k)
+	l := vs.TraceRet[uint64](u, 0)
+	if l == 0 {
+		return len(f) == 0
+	}
+	next := vs.TraceFindNth("ReadUvarint", k+1)
+	return u+1 < next && vs.TraceIs(u+1, "Decoder).Slice") && vs.TraceArg[int](u+1, 1) == int(l) &&
+		len(f) == len(vs.TraceRet[[]byte](u+1, 0)) && (len(f) == 0 || vs.OffsetIn(f, vs.TraceRet[[]byte](u+1, 0)) == 0)
+}
+
+//@ assume (reflect.Value).Field iface
+//@ assume (reflect.Value).Bytes iface
+//@ assume (reflect.Value).Uint iface
+//@ assume (*github.com/kelindar/binary.Encoder).WriteUvarint iface
+//@ assume (*github.com/kelindar/binary.Encoder).Write iface
+
+// @ verify (*messageCodec).EncodeTo pre=pre_messageCodec_EncodeTo post=post_messageCodec_EncodeTo props=C19
+func pre_messageCodec_EncodeTo(e *binary.Encoder) bool { return e != nil }
+func post_messageCodec_EncodeTo(e *binary.Encoder, res0 error) bool {
+	// fields 0, 1, 2 (id, channel, payload) and 3 (ttl) of the message are read, and written in that order: each byte
+	// field as its length followed by its bytes, then the ttl
+	if vs.TraceCount("Value).Bytes") != 3 || vs.TraceCount("Value).Uint") != 1 || vs.TraceCount("Encoder).WriteUvarint") != 4 ||
+		vs.TraceCount("Encoder).Write") != 3 || res0 != nil {
+		return false
+	}
+	return vs.Forall(0, 3, func(k int) bool {
+		f, b := vs.TraceFindNth("Value).Field", k), vs.TraceFindNth("Value).Bytes", k)
+		l, w := vs.TraceFindNth("Encoder).WriteUvarint", k), vs.TraceFindNth("Encoder).Write", k)
+		bytes := vs.TraceRet[[]byte](b, 0)
+		return vs.TraceArg[int](f, 1) == k && f < b && l < w && vs.TraceArg[uint64](l, 1) == uint64(len(bytes)) &&
+			vs.SameBytes(vs.TraceArg[[]byte](w, 1), bytes) && (k == 0 || vs.TraceFindNth("Encoder).Write", k-1) < l)
+	}) && vs.TraceArg[int](vs.TraceFindNth("Value).Field", 3), 1) == 3 &&
+		vs.TraceArg[uint64](vs.TraceFindNth("Encoder).WriteUvarint", 3), 1) == vs.TraceRet[uint64](vs.TraceFind("Value).Uint"), 0) &&
+		vs.TraceFindNth("Encoder).Write", 2) < vs.TraceFindNth("Encoder).WriteUvarint", 3)
+}
